@@ -20,20 +20,80 @@ func init() {
 	Register("C30", Extractor{Import: "Hv.Props.C30", Type: "Hv.C30.Facts", Run: c30Run})
 }
 
-// site facts from a boolean expression text such as `counter < howMany && exp != 0 && exp < now`
-func c30Site(expr string, v, now string) (Tri, Tri) {
-	guard := No
-	if strings.Contains(expr, v+" != 0") {
-		guard = Yes
+// c30Conj flattens `a && b && c` into its conjuncts (parentheses removed).
+func c30Conj(e ast.Expr, out *[]ast.Expr) {
+	for {
+		p, ok := e.(*ast.ParenExpr)
+		if !ok {
+			break
+		}
+		e = p.X
 	}
-	strict := Unknown
-	switch {
-	case strings.Contains(expr, v+" < "+now):
-		strict = Yes
-	case strings.Contains(expr, v+" <= "+now):
-		strict = No
+	if b, ok := e.(*ast.BinaryExpr); ok && b.Op.String() == "&&" {
+		c30Conj(b.X, out)
+		c30Conj(b.Y, out)
+		return
+	}
+	*out = append(*out, e)
+}
+
+// site facts from the WHOLE condition: it must be exactly the conjunction of the allowed
+// extra conjuncts (e.g. `counter < howMany`), at most one `v != 0` and exactly one comparison
+// `v < now` / `v <= now` between the two bare identifiers.  Anything else that mentions v or
+// now (`v < now-int64(time.Second)`, `v+1 < now`, `now > v` …) makes both facts unknown.
+func c30Site(f *File, cond ast.Expr, v, now string, extra ...string) (Tri, Tri) {
+	var cs []ast.Expr
+	c30Conj(cond, &cs)
+	guard, strict := No, Unknown
+	cmp := 0
+	for _, c := range cs {
+		t := f.Str(c)
+		switch {
+		case t == v+" != 0":
+			guard = Yes
+		case t == v+" < "+now:
+			strict = Yes
+			cmp++
+		case t == v+" <= "+now:
+			strict = No
+			cmp++
+		default:
+			ok := false
+			for _, e := range extra {
+				if t == e {
+					ok = true
+				}
+			}
+			if !ok {
+				return Unknown, Unknown
+			}
+		}
+	}
+	if cmp != 1 {
+		return Unknown, Unknown
 	}
 	return guard, strict
+}
+
+// c30NowExp: inside fd, `now` is assigned exactly once, from time.Now().UTC().UnixNano() (or without UTC),
+// and `exp` exactly once, from <x>.GetExpirationTime()
+func c30NowExp(f *File, fd *ast.FuncDecl) bool {
+	nowOK, expOK, nowN, expN := false, false, 0, 0
+	ast.Inspect(fd.Body, func(n ast.Node) bool {
+		if as, ok := n.(*ast.AssignStmt); ok && len(as.Lhs) == 1 && len(as.Rhs) == 1 {
+			switch f.Str(as.Lhs[0]) {
+			case "now":
+				nowN++
+				r := f.Str(as.Rhs[0])
+				nowOK = r == "time.Now().UTC().UnixNano()" || r == "time.Now().UnixNano()"
+			case "exp":
+				expN++
+				expOK = strings.HasSuffix(f.Str(as.Rhs[0]), ".GetExpirationTime()")
+			}
+		}
+		return true
+	})
+	return nowOK && expOK && nowN == 1 && expN == 1
 }
 
 func c30Run(fs *Facts) {
@@ -83,9 +143,10 @@ func c30Run(fs *Facts) {
 				case *ast.ReturnStmt:
 					if len(x.Results) == 1 {
 						r := tr.Str(x.Results[0])
-						if strings.HasPrefix(r, "t.treasure.ExpirationTime < time.Now()") {
+						switch r {
+						case "t.treasure.ExpirationTime < time.Now().UTC().UnixNano()", "t.treasure.ExpirationTime < time.Now().UnixNano()":
 							st = Yes
-						} else if strings.HasPrefix(r, "t.treasure.ExpirationTime <= time.Now()") {
+						case "t.treasure.ExpirationTime <= time.Now().UTC().UnixNano()", "t.treasure.ExpirationTime <= time.Now().UnixNano()":
 							st = No
 						}
 					}
@@ -102,17 +163,20 @@ func c30Run(fs *Facts) {
 			return Unknown, Unknown, nil
 		}
 		var g, st Tri = Unknown, Unknown
-		var at ast.Node
+		var at ast.Node = fd
+		if !c30NowExp(bc, fd) {
+			return Unknown, Unknown, at
+		}
 		ast.Inspect(fd.Body, func(n ast.Node) bool {
 			switch x := n.(type) {
 			case *ast.IfStmt:
 				if !viaAssign && strings.Contains(bc.Str(x.Cond), "counter < howMany") && strings.Contains(bc.Str(x.Cond), "exp") {
-					g, st = c30Site(bc.Str(x.Cond), "exp", "now")
+					g, st = c30Site(bc, x.Cond, "exp", "now", "counter < howMany")
 					at = x
 				}
 			case *ast.AssignStmt:
 				if viaAssign && len(x.Lhs) == 1 && bc.Str(x.Lhs[0]) == "isExpired" {
-					g, st = c30Site(bc.Str(x.Rhs[0]), "exp", "now")
+					g, st = c30Site(bc, x.Rhs[0], "exp", "now")
 					at = x
 				}
 			}
